@@ -1,5 +1,6 @@
 import GoaVerif.Prelude.Hex
 import GoaVerif.Model.TypeHash
+import GoaVerif.Model.DupHeap
 /-! Line-protocol front end for the C13 hash model (graph format: see harness/cmd/rtexpr). -/
 namespace GoaVerif.Drive.TypeHash
 open GoaVerif GoaVerif.TypeHash
@@ -47,21 +48,87 @@ def pMeta : P (String × List String) := fun ts => do
   let (vs, r) ← many (fun ts => do let (v, r) ← tok ts; pure (← hexToString v, r)) n r
   pure ((← hexToString k, vs), r)
 
-def pAttr : P Attr := fun ts => do
+/-- attribute plus whether it carries a validation (`v`) -/
+def pAttrV : P (Attr × Bool) := fun ts => do
   let (ty, r) ← nat ts
   let (n, r) ← nat r
   let (md, r) ← many pMeta n r
-  let (_, r) ← tok r
-  pure (⟨ty, md⟩, r)
+  let (v, r) ← tok r
+  pure ((⟨ty, md⟩, v == "v"), r)
 
-def pGraph : P Graph := fun ts => do
+def pGraphV : P (Graph × List Bool) := fun ts => do
   let (_, r) ← tok ts
   let (n, r) ← nat r
   let (nodes, r) ← many pNode n r
   let (_, r) ← tok r
   let (m, r) ← nat r
-  let (atts, r) ← many pAttr m r
-  pure (⟨nodes, atts⟩, r)
+  let (atts, r) ← many pAttrV m r
+  pure ((⟨nodes, atts.map (·.1)⟩, atts.map (·.2)), r)
+
+def pGraph : P Graph := fun ts => do
+  let ((g, _), r) ← pGraphV ts
+  pure (g, r)
+
+/-! ### the same graph as a heap (Model/DupHeap.lean)
+Layout: type nodes at 0..N-1, attributes at N..N+M-1, then one container cell per attribute for its
+metadata (when it has any) and its validation (when it has one), then one `Views` cell per result type. -/
+
+open GoaVerif.DupHeap in
+def toHeap (g : Graph) (vals : List Bool) : List Cell :=
+  let n := g.nodes.length
+  let m := g.atts.length
+  -- addresses of the containers, in allocation order
+  let mdAddr : List (Option Nat) := (g.atts.foldl (fun (acc : List (Option Nat) × Nat) a =>
+      if a.md.isEmpty then (acc.1 ++ [none], acc.2) else (acc.1 ++ [some acc.2], acc.2 + 1)) ([], n + m)).1
+  let nMd := (g.atts.filter (fun a => !a.md.isEmpty)).length
+  let valAddr : List (Option Nat) := (vals.foldl (fun (acc : List (Option Nat) × Nat) v =>
+      if v then (acc.1 ++ [some acc.2], acc.2 + 1) else (acc.1 ++ [none], acc.2)) ([], n + m + nMd)).1
+  let nVal := (vals.filter id).length
+  let viewAddr : List (Option Nat) := (g.nodes.foldl (fun (acc : List (Option Nat) × Nat) nd =>
+      match nd with
+      | .user _ _ true => (acc.1 ++ [some acc.2], acc.2 + 1)
+      | _ => (acc.1 ++ [none], acc.2)) ([], n + m + nMd + nVal)).1
+  let typeCells : List Cell := g.nodes.zipIdx.map fun (nd, i) =>
+    match nd with
+    | .prim s => Cell.prim s
+    | .arr e => Cell.arr (n + e)
+    | .map k e => Cell.map (n + k) (n + e)
+    | .obj fs => Cell.obj (fs.map fun f => (f.1, n + f.2))
+    | .union nm vs => Cell.union nm (vs.map fun f => (f.1, n + f.2))
+    | .user _ a _ => Cell.user (toString i) (n + a) ((viewAddr[i]?).getD none)
+  let attCells : List Cell := g.atts.zipIdx.map fun (a, i) =>
+    Cell.att a.ty ((mdAddr[i]?).getD none) ((valAddr[i]?).getD none)
+  typeCells ++ attCells ++ List.replicate nMd (Cell.blob "meta") ++ List.replicate nVal (Cell.blob "validation")
+    ++ List.replicate ((viewAddr.filter Option.isSome).length) (Cell.blob "views")
+
+open GoaVerif.DupHeap in
+/-- kinds of the non-primitive cells of the ORIGINAL that are reachable from the copy (following the
+    views pointer too): what copy and original share -/
+def sharedKinds (heap' : List Cell) (n0 root fuel : Nat) : List String :=
+  let rec go : Nat → List Nat → List Nat → List String → List String
+    | 0, _, _, acc => acc
+    | _, [], _, acc => acc
+    | f + 1, x :: todo, seen, acc =>
+      if seen.contains x then go f todo seen acc else
+      match heap'[x]? with
+      | none => go f todo (x :: seen) acc
+      | some c =>
+        let kind : Option String :=
+          if x < n0 then
+            match c with
+            | .prim _ => none
+            | .blob "views" => some "ResultTypeExpr.Views"
+            | .blob s => some ("container:" ++ s)
+            | .att .. => some "AttributeExpr"
+            | _ => some "type"
+          else none
+        let next := c.ptrs ++ (match c with | .user _ _ (some v) => [v] | _ => [])
+        let acc' := match kind with
+          | some k => if acc.contains k then acc else acc ++ [k]
+          | none => acc
+        -- cells of the original are not followed further: what hangs below a shared cell is shared with it
+        go f (if x < n0 then todo else next ++ todo) (x :: seen) acc'
+  go fuel [root] [] []
 
 def handle : List String → Option String
   | "hash" :: f :: root :: rest => do
@@ -70,7 +137,16 @@ def handle : List String → Option String
     let (g, _) ← pGraph rest
     let flags : Flags := ⟨fl % 2 == 1, (fl / 2) % 2 == 1, (fl / 4) % 2 == 1⟩
     some (encString (hashOf g flags (2 * (g.nodes.length + g.atts.length) + 4) rt))
-  | "props" :: _ => some "-"
+  | "props" :: _ :: root :: rest => do
+    let rt ← root.toNat?
+    let ((g, vals), _) ← pGraphV rest
+    let heap := toHeap g vals
+    let fuel := 2 * heap.length + 4
+    match GoaVerif.DupHeap.dupTop fuel heap rt with
+    | some (r, heap') =>
+      let ks := sharedKinds heap' heap.length r (4 * heap'.length + 4)
+      some ("dup_shared=[" ++ ",".intercalate ks ++ "] cells=" ++ toString (heap'.length - heap.length))
+    | none => some "dup=none"
   | _ => none
 
 end GoaVerif.Drive.TypeHash
